@@ -15,6 +15,8 @@ import (
 	"strings"
 )
 
+var letN int
+
 type Env struct {
 	w      *World
 	pkg    *types.Package
@@ -658,6 +660,35 @@ func (e *Env) call(x *ast.CallExpr, hint types.Type) Term {
 			panic(unsupported("zeroExcept: no field " + n))
 		}
 		return Term{and(cs...), "Bool", boolT}
+	case "withField": // withField(structValue, "F", v): functional update
+		v := e.tr(arg(0), nil)
+		st, ok := v.T.Underlying().(*types.Struct)
+		if !ok {
+			panic(unsupported("withField of non-struct"))
+		}
+		lit, ok := arg(1).(*ast.BasicLit)
+		if !ok {
+			panic(unsupported("withField: field name must be a string literal"))
+		}
+		fname, _ := strconv.Unquote(lit.Value)
+		idx := w.reg.structIndex(st)
+		var fs []string
+		found := false
+		letN++
+		lv := fmt.Sprintf("wf!%d", letN)
+		for i := 0; i < st.NumFields(); i++ {
+			if st.Field(i).Name() == fname {
+				nv := e.tr(arg(2), st.Field(i).Type())
+				fs = append(fs, nv.S)
+				found = true
+			} else {
+				fs = append(fs, fmt.Sprintf("(St%d_f%d %s)", idx, i, lv))
+			}
+		}
+		if !found {
+			panic(unsupported("withField: no field " + fname))
+		}
+		return Term{fmt.Sprintf("(let ((%s %s)) (mk-St%d %s))", lv, v.S, idx, strings.Join(fs, " ")), v.Sort, v.T}
 	case "fresh":
 		v := e.tr(arg(0), nil)
 		return Term{"(> " + w.refOf(v) + " " + e.W0 + ")", "Bool", boolT}
@@ -758,6 +789,9 @@ func (e *Env) call(x *ast.CallExpr, hint types.Type) Term {
 	case "visited": // visited(rangeName, key) -- ghost set of a map range loop
 		id := arg(0).(*ast.Ident)
 		g, ok := e.ghost["visited_"+id.Name]
+		if id.Name == "rng" { // the (only / innermost) map range loop
+			g, ok = e.ghost["visited"]
+		}
 		if !ok {
 			panic(unsupported("visited: no range loop ghost named " + id.Name))
 		}
